@@ -164,7 +164,9 @@ def run(ctx):
             return "replace_mode"
         return None
     g = C.G(prim.event_graph(ex, role, branch_role=brole))
-    rm = g.nodes("replace_mode")
+    # (the replace option may be tested elsewhere too — the built-in echo does; the test meant here is the one whose Some
+    # side goes on to obtain the line or to run the command)
+    rm = [r for r in g.nodes("replace_mode") if any(C.base(x).startswith("line?") or C.base(x) in ("run", "index") for x in g.succ(r, "1"))]
     ok = len(rm) == 1
     desc = g.fmt()
     if ok:
@@ -289,7 +291,7 @@ def _precedence(ctx, no):
         return None
 
     _positions_recorded(ctx, no)
-    g = prim.event_graph(no, role, branch_role=brole, stmt_role=srole)
+    g = prim.event_graph(no, role, branch_role=brole, stmt_role=srole, history=True)
     gg = C.G(g)
     roles = {C.base(n) for n in gg.out} | {C.base(b) for a, l, b in gg.edges}
     need = {"has_args", "has_lines", "has_replace"}
@@ -323,8 +325,8 @@ def _precedence(ctx, no):
             asg = {"has_args": ("discr", 1 if has_a else 0), "has_lines": ("discr", 1 if has_l else 0), "has_replace": ("discr", 1 if has_r else 0),
                    "args_value": ("discr", 1 if a_is_1 else 999)}
             for r in roles:
-                if r.split(":")[0] in ("gt", "lt", "ge", "le") and r.count(":") == 2:
-                    asg[r] = cmpf(r)
+                if r.split(":")[0] in ("gt", "lt", "ge", "le") and r.count(":") == 2 and r.split(":")[1] in rank and r.split(":")[2] in rank:
+                    asg[r] = cmpf(r)          # (comparisons of other positions, -0 against -d, belong to the delimiter table: C05.R2)
             tr = _sim_until_out(gg.edges, asg)
             rows += 1
             if tr != want:
